@@ -198,13 +198,14 @@ fn run_one(dir: &str, framing: &str, variant: &str, len: u64) -> String {
     if dir == "W" || dir == "Q" {
         let mut h = Headers::new_nodate();
         h.add("content-type", &b"application/octet-stream"[..]);
-        match framing { "cl" => h.set_content_length(Some(len)), "chunked" => h.set_transfer_encoding_chunked(), _ => {} }
+        // "cl1000": a length of 1000 is declared while the reader holds `len` bytes (a prefix of a large source is served)
+        match framing { "cl" => h.set_content_length(Some(len)), "cl1000" => h.set_content_length(Some(1000.min(len))), "chunked" => h.set_transfer_encoding_chunked(), _ => {} }
         let reader = Gen { left: len, piece: variant.parse().unwrap() };
         let mut sink = Sink(0);
         let (r, p, a) = measure(|| if dir == "W" { HttpPrinter::write_response(&mut sink, &Status::OK, &h, reader) }
                                     else { HttpPrinter::write_request(&mut sink, &khttp::Method::Post, "/upload", &h, reader) });
         peak = p; allocs = a;
-        ok = r.is_ok() && sink.0 >= len;
+        ok = r.is_ok() && sink.0 >= if framing == "cl1000" { 1000.min(len) } else { len };
     } else if dir == "R" {
         let src: Box<dyn Read> = match framing {
             "chunked" => Box::new(ChunkedGen { left: len, chunk: 60000, pending: Vec::with_capacity(70000), pos: 0, done: false }),
@@ -231,6 +232,37 @@ fn run_one(dir: &str, framing: &str, variant: &str, len: u64) -> String {
         peak = p; allocs = a;
         let want = match variant { "none" => 0, "part" => len.min(100), _ => len };
         ok = total == Ok(want);
+    } else if variant == "bighead" {
+        // S bighead: a head that never ends (`len` bytes of one header value, no CRLF) against a limit of 6000 bytes:
+        // 431, and no more than the limit is ever buffered
+        let listener = std::net::TcpListener::bind("127.0.0.1:0").unwrap();
+        let mut client = std::net::TcpStream::connect(listener.local_addr().unwrap()).unwrap();
+        let (srv, _) = listener.accept().unwrap();
+        let mut b = khttp::Server::builder("127.0.0.1:0").unwrap();
+        b.max_request_head_size(6000);
+        b.fallback_route(|_r, res| res.ok(&Headers::new_nodate(), b"x"));
+        let server = b.build();
+        let ((sres, status), p, a) = measure(|| {
+            crate::MUTED.with(|m| m.set(true));
+            let th = std::thread::spawn(move || server.handle(&srv));
+            let _ = client.write_all(b"GET / HTTP/1.1\r\nX: ");
+            let piece = vec![b'a'; 65536];
+            let mut left = len;
+            while left > 0 { let n = left.min(65536) as usize; if client.write_all(&piece[..n]).is_err() { break; } left -= n as u64; }
+            let _ = client.shutdown(std::net::Shutdown::Write);
+            let mut buf = Vec::new();
+            client.set_read_timeout(Some(std::time::Duration::from_secs(3))).ok();
+            let mut tmp = [0u8; 4096];
+            loop { match client.read(&mut tmp) { Ok(0) | Err(_) => break, Ok(n) => buf.extend_from_slice(&tmp[..n]) } }
+            let status = String::from_utf8_lossy(&buf).split(' ').nth(1).unwrap_or("NONE").to_string();
+            let sres = th.join().map_err(|_| "server panic".to_string()).and_then(|r| r.map_err(|e| e.to_string()));
+            crate::MUTED.with(|m| m.set(false));
+            (sres, status)
+        });
+        peak = p; allocs = a;
+        // a head shorter than the limit that then ends with the stream is simply an incomplete request (no answer)
+        ok = sres.is_ok() && (status == "431" || (len < 5900 && status == "NONE"));
+        if !ok { eprintln!("memory S bighead {len}: server={sres:?} status={status}"); }
     } else {
         // S: the whole server path
         let listener = std::net::TcpListener::bind("127.0.0.1:0").unwrap();
@@ -260,14 +292,15 @@ pub fn gen(ctx: &Ctx) {
     out.rule = "peak live heap bytes (counting global allocator) during one operation, for body lengths 1 KiB .. 64 MiB (thorough: .. 1 GiB), bodies generated on the fly and discarded: \
                 write_response / write_request from a reader with {declared length, declared chunked, nothing declared} x reader piece sizes {1, 700, 4096, 65536, 1 MiB}; \
                 BodyReader over {fixed, chunked, EOF-delimited} bodies x {read to the end, dropped unread, dropped after 100 bytes, fill_buf/consume}; \
-                the real Server::handle on a loopback connection, request body {declared, chunked} x handler {counts the body, ignores it, reads 100 bytes, streams an equally long response}, also with an HTTP/1.0 request line. \
+                the real Server::handle on a loopback connection, request body {declared, chunked} x handler {counts the body, ignores it, reads 100 bytes, streams an equally long response}, also with an HTTP/1.0 request line; a declared length of 1000 with a much longer reader; a never-ending head against a limit of 6000 bytes (431, nothing beyond the limit buffered). \
                 non-trivial = bodies above 16 KiB".into();
     let mut lens: Vec<u64> = vec![1 << 10, 8191, 8192, 8193, 1 << 16, (1 << 16) + 1, 1 << 17, 1 << 20, 1 << 24, 1 << 26];
     if ctx.thorough { lens.extend([1u64 << 28, 1 << 30]); }
     let ls = |max: u64| lens.iter().filter(|l| **l <= max).map(|l| l.to_string()).collect::<Vec<_>>().join(",");
     for d in ["W", "Q"] {
-        for fr in ["cl", "chunked", "auto"] {
+        for fr in ["cl", "chunked", "auto", "cl1000"] {
             for piece in ["1", "700", "4096", "65536", "1048576"] {
+                if fr == "cl1000" && (piece == "1" || piece == "1048576") { continue; }
                 if d == "Q" && (piece == "4096" || piece == "1048576") { continue; }
                 // one-byte reads of a GiB take too long: smaller bodies there
                 let case = format!("{d} {fr} {piece} {}", ls(if piece == "1" { 1 << 20 } else { u64::MAX }));
@@ -282,6 +315,11 @@ pub fn gen(ctx: &Ctx) {
             let r = run(&case);
             out.emit(&case, &r, &format!("R/{fr}/{v}"), true);
         }
+    }
+    {
+        let case = format!("S cl bighead {}", ls(if ctx.thorough { 1 << 28 } else { 1 << 24 }));
+        let r = run(&case);
+        out.emit(&case, &r, "S/bighead", true);
     }
     for fr in ["cl", "chunked"] {
         for v in ["count", "ignore", "sniff", "echo", "echocl", "echochunked", "echo10", "count10"] {
